@@ -252,6 +252,11 @@ func runC17(c *core.Ctx) *core.Violation {
 	for _, k := range keys {
 		w, g := want[k], got[k]
 		typ := typeOfCanon(k)
+		if big && strings.Contains(k, "|k="+b64([]byte("the-big-hash"))+"|") {
+			// an element of the hash beyond the 16 MiB chunk limit: decode mode cannot handle its chunks (known
+			// finding); when it does not abort it prints garbage for them
+			typ += ",chunked-hash"
+		}
 		switch {
 		case g < w:
 			return core.Violate("element-omitted", "type="+typ, "element %s is in the RDB %d time(s) but printed %d time(s) (parallel=%d)", k, w, g, conf.Options.Parallel)
